@@ -236,12 +236,39 @@ func (n *chainnode) Mean(field string) *InfluxQLNode {
 	return i
 }
 
+// The slice reducers of influxdb hand back the input point itself when a window holds a single point.
+// An aggregation is not a selector: its result never carries the time of an input point
+// (see UsePointTimes), so clear it.
+func floatAggregateTime(fn query.FloatReduceSliceFunc) query.FloatReduceSliceFunc {
+	return func(a []query.FloatPoint) []query.FloatPoint {
+		points := fn(a)
+		out := make([]query.FloatPoint, len(points))
+		for i, p := range points {
+			p.Time = query.ZeroTime
+			out[i] = p
+		}
+		return out
+	}
+}
+
+func integerAggregateTime(fn query.IntegerReduceSliceFunc) query.IntegerReduceSliceFunc {
+	return func(a []query.IntegerPoint) []query.IntegerPoint {
+		points := fn(a)
+		out := make([]query.IntegerPoint, len(points))
+		for i, p := range points {
+			p.Time = query.ZeroTime
+			out[i] = p
+		}
+		return out
+	}
+}
+
 // Compute the median of the data. Note, this method is not a selector,
 // if you want the median point use `.percentile(field, 50.0)`.
 func (n *chainnode) Median(field string) *InfluxQLNode {
 	i := newInfluxQLNode("median", field, n.Provides(), StreamEdge, ReduceCreater{
 		CreateFloatReducer: func() (query.FloatPointAggregator, query.FloatPointEmitter) {
-			fn := query.NewFloatSliceFuncReducer(query.FloatMedianReduceSlice)
+			fn := query.NewFloatSliceFuncReducer(floatAggregateTime(query.FloatMedianReduceSlice))
 			return fn, fn
 		},
 		CreateIntegerFloatReducer: func() (query.IntegerPointAggregator, query.FloatPointEmitter) {
@@ -257,11 +284,11 @@ func (n *chainnode) Median(field string) *InfluxQLNode {
 func (n *chainnode) Mode(field string) *InfluxQLNode {
 	i := newInfluxQLNode("mode", field, n.Provides(), StreamEdge, ReduceCreater{
 		CreateFloatReducer: func() (query.FloatPointAggregator, query.FloatPointEmitter) {
-			fn := query.NewFloatSliceFuncReducer(query.FloatModeReduceSlice)
+			fn := query.NewFloatSliceFuncReducer(floatAggregateTime(query.FloatModeReduceSlice))
 			return fn, fn
 		},
 		CreateIntegerReducer: func() (query.IntegerPointAggregator, query.IntegerPointEmitter) {
-			fn := query.NewIntegerSliceFuncReducer(query.IntegerModeReduceSlice)
+			fn := query.NewIntegerSliceFuncReducer(integerAggregateTime(query.IntegerModeReduceSlice))
 			return fn, fn
 		},
 	})
